@@ -1,6 +1,7 @@
 import I18n.Model.Cli
 import I18n.Generated.StateSites
 import I18n.Lemmas.CliState
+import I18n.Lemmas.HashOrder
 /-!
 # C03 (composition clause) — multi-file output is the concatenation of the single-file outputs
 
@@ -293,5 +294,160 @@ example :
       = ["ISO-8859-1:\\xa4", "ISO-8859-15:\\xa4", "ISO-8859-1:\\xa4"] := by
   decide
 end Stale
+
+/-! ## Hash-seed independence inside the model (`Model/HashOrder.lean`)
+
+A set is iterated in an ARBITRARY order `ord` (any rearrangement of its elements).  Each theorem below is the shape of the
+sites of one verdict of `Generated/StateSites.iterSites` and says: the result is the same for every `ord`. -/
+section HashSeed
+open I18n.HashOrder
+variable {α β : Type}
+
+/-- **`sorted` kills the iteration order**: for a transitive, total comparison that is antisymmetric on the elements
+    (they are pairwise distinct members of a set, compared by a linear order), sorting any rearrangement gives the same
+    list. -/
+theorem sorted_kills_order (ord : SetOrder α) (le : α → α → Bool)
+    (trans : ∀ a b c, le a b → le b c → le a c) (total : ∀ a b, le a b || le b a) (s : List α)
+    (antisymm : ∀ a b, a ∈ s → b ∈ s → le a b → le b a → a = b) :
+    pySorted le (ord.order s) = pySorted le s := by
+  have hp : (pySorted le (ord.order s)).Perm (pySorted le s) :=
+    (pySorted_perm _ _).trans ((ord.perm s).trans (pySorted_perm _ _).symm)
+  apply List.Perm.eq_of_pairwise (le := fun a b => le a b = true) _ (pySorted_pairwise le trans total _)
+    (pySorted_pairwise le trans total _) hp
+  intro a b ha hb hab hba
+  have ha' : a ∈ s := (ord.perm s).mem_iff.mp ((pySorted_perm _ _).mem_iff.mp ha)
+  have hb' : b ∈ s := (pySorted_perm _ _).mem_iff.mp hb
+  exact antisymm a b ha' hb' hab hba
+
+/-- `', '.join(sorted(types))` (msgformat/pybrace.py after ef37847; c.py; python.py): the same text under every hash seed -/
+theorem sorted_join_seed_independent (ord1 ord2 : SetOrder String) (le : String → String → Bool)
+    (trans : ∀ a b c, le a b → le b c → le a c) (total : ∀ a b, le a b || le b a) (sep : String) (s : List String)
+    (antisymm : ∀ a b, a ∈ s → b ∈ s → le a b → le b a → a = b) :
+    sortedJoin ord1 le sep s = sortedJoin ord2 le sep s := by
+  unfold sortedJoin
+  rw [sorted_kills_order ord1 le trans total s antisymm, sorted_kills_order ord2 le trans total s antisymm]
+
+/-- `for x in sorted(s): …tag(…)…` (`_check_message_formats`, the `sorted(set(x))` idiom of check/__init__.py): the same
+    lines in the same order under every hash seed -/
+theorem sorted_for_seed_independent (ord1 ord2 : SetOrder α) (le : α → α → Bool)
+    (trans : ∀ a b c, le a b → le b c → le a c) (total : ∀ a b, le a b || le b a) (emit : α → List String) (s : List α)
+    (antisymm : ∀ a b, a ∈ s → b ∈ s → le a b → le b a → a = b) :
+    sortedFor ord1 le emit s = sortedFor ord2 le emit s := by
+  unfold sortedFor
+  rw [sorted_kills_order ord1 le trans total s antisymm, sorted_kills_order ord2 le trans total s antisymm]
+
+/-- `sorted(s, key=sort_key)` with a key that is injective on the elements (the classifier demands that the key contains the
+    element itself): order-free.  With a key that ties, the stable sort leaks the hash order — `tie_in_key_leaks_order`. -/
+theorem sorted_by_injective_key_seed_independent (ord1 ord2 : SetOrder α) (key : α → β) (leKey : β → β → Bool)
+    (trans : ∀ a b c, leKey a b → leKey b c → leKey a c) (total : ∀ a b, leKey a b || leKey b a)
+    (antisymmKey : ∀ a b, leKey a b → leKey b a → a = b) (s : List α)
+    (inj : ∀ a b, a ∈ s → b ∈ s → key a = key b → a = b) :
+    sortedByKey ord1 key leKey s = sortedByKey ord2 key leKey s := by
+  unfold sortedByKey
+  have h := fun (o : SetOrder α) => sorted_kills_order o (fun a b => leKey (key a) (key b))
+    (fun a b c => trans (key a) (key b) (key c)) (fun a b => total (key a) (key b)) s
+    (fun a b ha hb hab hba => inj a b ha hb (antisymmKey _ _ hab hba))
+  rw [h ord1, h ord2]
+
+/-- what the pins exclude (1): `', '.join(frozenset)` without `sorted` — two hash orders, two texts
+    (the defect of msgformat/pybrace.py repaired by ef37847, msgid `{0:n}` / msgstr `{0:s}`) -/
+theorem raw_join_depends_on_seed :
+    rawJoin .asWritten ", " ["int", "str"] ≠ rawJoin .reversed ", " ["int", "str"] := by decide
+
+/-- what the pins exclude (2): `sorted(s, key=…)` with a key that ties (here: constant) keeps the hash order -/
+theorem tie_in_key_leaks_order :
+    sortedByKey (.asWritten : SetOrder Nat) (fun _ => 0) (fun a b => decide (a ≤ b)) [1, 2]
+      ≠ sortedByKey .reversed (fun _ => 0) (fun a b => decide (a ≤ b)) [1, 2] := by decide
+
+/-- a regex alternation built from a set and used for match existence only (`check_comments`) -/
+theorem any_match_seed_independent (ord1 ord2 : SetOrder α) (matchesAlt : α → Bool) (s : List α) :
+    anyMatch ord1 matchesAlt s = anyMatch ord2 matchesAlt s := by
+  unfold anyMatch
+  have h : ∀ (o : SetOrder α), (o.order s).any matchesAlt = s.any matchesAlt := by
+    intro o
+    rw [Bool.eq_iff_iff]
+    simp only [List.any_eq_true]
+    constructor
+    · rintro ⟨x, hx, hm⟩; exact ⟨x, (o.perm s).mem_iff.mp hx, hm⟩
+    · rintro ⟨x, hx, hm⟩; exact ⟨x, (o.perm s).mem_iff.mpr hx, hm⟩
+  rw [h ord1, h ord2]
+
+theorem length_le_one_of_all_eq {l : List α} (hn : l.Nodup) (heq : ∀ a b, a ∈ l → b ∈ l → a = b) :
+    l = [] ∨ ∃ x, l = [x] := by
+  cases l with
+  | nil => exact Or.inl rfl
+  | cons a t =>
+    cases t with
+    | nil => exact Or.inr ⟨a, rfl⟩
+    | cons b t' =>
+      have hab : a = b := heq a b (by simp) (by simp)
+      subst hab
+      simp at hn
+
+/-- a dict built by iterating a set and used for look-ups only (`header_fields_lc`, `_unmangle_encoding`): when the keys
+    are pairwise distinct (pin `lookup_tables_have_distinct_keys`) every look-up gives the same answer under every order -/
+theorem dict_get_seed_independent [DecidableEq β] (ord1 ord2 : SetOrder α) (key : α → β) (s : List α) (hn : s.Nodup)
+    (inj : ∀ a b, a ∈ s → b ∈ s → key a = key b → a = b) (k : β) :
+    dictGet (dictOfSet ord1 key s) k = dictGet (dictOfSet ord2 key s) k := by
+  have h : ∀ (o : SetOrder α), (dictOfSet o key s).filter (fun kv => kv.1 == k)
+      = (s.filter (fun x => key x == k)).map (fun x => (key x, x)) := by
+    intro o
+    unfold dictOfSet
+    rw [List.filter_map]
+    congr 1
+    have hp : ((o.order s).filter (fun x => key x == k)).Perm (s.filter (fun x => key x == k)) := (o.perm s).filter _
+    have hn' : (s.filter (fun x => key x == k)).Nodup := hn.filter _
+    have heq : ∀ a b, a ∈ s.filter (fun x => key x == k) → b ∈ s.filter (fun x => key x == k) → a = b := by
+      intro a b ha hb
+      simp only [List.mem_filter, beq_iff_eq] at ha hb
+      exact inj a b ha.1 hb.1 (ha.2.trans hb.2.symm)
+    rcases length_le_one_of_all_eq hn' heq with h0 | ⟨x, hx⟩
+    · rw [h0] at hp ⊢; exact hp.eq_nil
+    · rw [hx] at hp ⊢; exact hp.eq_singleton
+  unfold dictGet
+  rw [h ord1, h ord2]
+
+/-- `difflib.get_close_matches(word, <set>, n=1)`: the maximum of (score, candidate) pairs under a total order is the same
+    whatever the order in which the candidates are visited -/
+theorem best_match_seed_independent (ord1 ord2 : SetOrder α) (better : α → α → α)
+    (comm : ∀ a b, better a b = better b a) (assoc : ∀ a b c, better (better a b) c = better a (better b c)) (s : List α) :
+    bestMatch ord1 better s = bestMatch ord2 better s := by
+  unfold bestMatch
+  have hp : (ord1.order s).Perm (ord2.order s) := (ord1.perm s).trans (ord2.perm s).symm
+  apply hp.foldl_eq'
+  intro x _ y _ z
+  cases z with
+  | none => simp only [comm x y]
+  | some a =>
+    simp only [Option.some.injEq]
+    rw [assoc, assoc, comm x y]
+
+/-- `[x] = s` and `s.pop()` under `len(s) == 1` -/
+theorem the_only_seed_independent (ord1 ord2 : SetOrder α) (s : List α) : theOnly ord1 s = theOnly ord2 s := by
+  have h : ∀ (o : SetOrder α), theOnly o s = (match s with | [x] => some x | _ => none) := by
+    intro o
+    unfold theOnly
+    have hp := o.perm s
+    have hl := hp.length_eq
+    match s, hp, hl with
+    | [], hp, _ => rw [hp.eq_nil]
+    | [x], hp, _ => rw [hp.eq_singleton]
+    | x :: y :: t, _, hl =>
+      cases ho : o.order (x :: y :: t) with
+      | nil => simp [ho] at hl
+      | cons a r =>
+        cases r with
+        | nil => simp [ho] at hl
+        | cons b r' => rfl
+  rw [h ord1, h ord2]
+
+/-! non-vacuity: concrete sets, two different iteration orders, the real comparison on strings -/
+example : sortedJoin .asWritten (fun a b => decide (a ≤ b)) ", " ["str", "int", "float"] = "float, int, str"
+    ∧ sortedJoin .reversed (fun a b => decide (a ≤ b)) ", " ["str", "int", "float"] = "float, int, str" := by decide
+example : sortedFor (.reversed : SetOrder Nat) (fun a b => decide (a ≤ b)) (fun n => [toString n]) [3, 1, 2] = ["1", "2", "3"] := by
+  decide
+example : dictGet (dictOfSet (.reversed : SetOrder String) String.length ["a", "bb"]) 2 = some "bb" := by decide
+example : bestMatch (.reversed : SetOrder Nat) max [3, 9, 4] = some 9 ∧ theOnly (.reversed : SetOrder Nat) [7] = some 7 := by decide
+end HashSeed
 
 end I18n.Props.C03
